@@ -414,9 +414,6 @@ class TypeGen:
     def declare(self, shape: list):
         """A declaration the run-time shape satisfies: each dim literal / symbolic / "" / missing; or no shape."""
         r = self.rng
-        if r.random() < 0.12:
-            self.features.add("decl:unknown-rank")
-            return None
         out = []
         for d in shape:
             k = r.random()
